@@ -217,11 +217,21 @@ def rule_r1(chk: Any, h: Harness) -> None:
                 raise AnchorError(f"C24.R1: {kind} store has no `{need}` method")
     nolist: dict[str, Any] = {}
     total = 0
+    broken: set[str] = set()
     for kind in ("memory", "sqlite"):
         m, meths = anchors[kind]
         base = h.store(kind)
-        for p in POPULATION:
-            _guard("C24.R1", f"{kind} update", lambda: base.call("update", h.handler(**p)))
+        try:
+            for p in POPULATION:
+                _guard("C24.R1", f"{kind} update", lambda: base.call("update", h.handler(**p)))
+            ok_up, why_up = True, ""
+        except Raised as r:
+            ok_up, why_up = False, f"update of a well-formed handler raised {r}"
+        chk.ob("C24.R1", f"{kind} store: `update` stores every handler of the 8-handler population", ok_up, m=m, node=meths["update"], fn=meths["update"],
+               instance=f"{kind}:update-accepts", reason=why_up)
+        if not ok_up:
+            broken.add(kind)
+            continue
         bad_q: dict[str, str] = {}
         bad_d: dict[str, str] = {}
         seen_slots: set[str] = set()
@@ -230,7 +240,10 @@ def rule_r1(chk: Any, h: Harness) -> None:
             seen_slots.add(slot)
             want = sorted(p["handler_id"] for p in POPULATION if spec_match(h.fields, p, q))
             qrec = h.query(**q)
-            got = _guard("C24.R1", f"{kind} query", lambda: sorted(r.handler_id for r in base.call("query", qrec)))
+            try:
+                got = _guard("C24.R1", f"{kind} query", lambda: sorted(r.handler_id for r in base.call("query", qrec)))
+            except Raised as r:
+                got = [f"raised {r}"]
             total += 1
             if slot == "no-filter":
                 nolist[kind] = {"query": len(got)}
@@ -257,9 +270,9 @@ def rule_r1(chk: Any, h: Harness) -> None:
                    slot not in bad_q, m=m, node=meths["query"], fn=meths["query"], instance=f"{kind}:query:{slot}", reason=bad_q.get(slot, ""))
             chk.ob("C24.R1", f"{kind} store: `delete` with at least one filter removes exactly the matching handlers and returns their number ({slot})",
                    slot not in bad_d, m=m, node=meths["delete"], fn=meths["delete"], instance=f"{kind}:delete:{slot}", reason=bad_d.get(slot, ""))
-    chk.floor("C24.R1", "query/delete evaluations against the oracle (2 stores)", total, 2 * 2 * 250)
+    chk.floor("C24.R1", "query/delete evaluations against the oracle (2 stores)", total, 2 * 2 * 250 if not broken else 0)
     chk.floor("C24.R1", "HandlerQuery filter fields enumerated from the dataclass", len(h.fields), 5)
-    if nolist.get("memory") != nolist.get("sqlite"):
+    if not broken and nolist.get("memory") != nolist.get("sqlite"):
         chk.observe(f"filter-less HandlerQuery(): memory store {nolist.get('memory')} vs SQLite store {nolist.get('sqlite')} over 8 handlers — `delete(HandlerQuery())` "
                     "removes everything in memory and nothing in SQLite. The statement only covers deletes with at least one filter, so this is not an obligation "
                     "(dynamic repro: triage/t_more.py::c24del).")
@@ -313,33 +326,35 @@ def rule_r1_sequences(chk: Any, h: Harness, anchors: dict) -> None:
     ops = _ops_r1(h)
     depth = 3 if chk.tier == "thorough" else 2
     n = 0
+    anybad = False
     for kind in ("memory", "sqlite"):
         m, meths = anchors[kind]
         bad = ""
 
         def rec(s: StoreModel, d: dict, trail: list[str], level: int) -> None:
             nonlocal bad, n
-            if bad or level == depth:
+            if level == depth:
                 return
             for label, run, ref in ops:
                 s2, d2 = s.fork(), dict(d)
+                n += 1
                 try:
                     run(s2)
                     ref(d2)
                     got = s2.listing()
                 except Raised as r:
-                    bad = f"{' ; '.join(trail + [label])} raised {r}"
-                    return
-                n += 1
+                    bad = bad or f"{' ; '.join(trail + [label])} raised {r}"
+                    continue
                 if got != d2:
-                    bad = f"after {' ; '.join(trail + [label])} the store holds {got}, a dictionary model holds {d2}"
-                    return
+                    bad = bad or f"after {' ; '.join(trail + [label])} the store holds {got}, a dictionary model holds {d2}"
+                    continue  # the subtree below a wrong state says nothing more
                 rec(s2, d2, trail + [label], level + 1)
 
         _guard("C24.R1", f"{kind} operation sequences", lambda: rec(h.store(kind), {}, [], 0))
         chk.ob("C24.R1", f"{kind} store: after every sequence of <= {depth} upserts / status updates / deletes the handlers visible to `query` equal a reference dictionary model (so both stores agree)",
                not bad, m=m, node=meths["update"], fn=meths["update"], instance=f"{kind}:sequences", reason=bad)
-    chk.floor("C24.R1", "operation-sequence states compared with the reference model", n, 2 * 90)
+        anybad = anybad or bool(bad)
+    chk.floor("C24.R1", "operation-sequence states compared with the reference model", n, 2 * 90 if not anybad else 0)
 
 
 # ---------------------------------------------------------------------------- R2 / R3
@@ -454,7 +469,7 @@ def rule_r2_r3(chk: Any, h: Harness, depth: int) -> None:
         plans[1] = (2, _evict_ops(["A", "B", "C"], 2), depth)
     for cap, ops, d in plans:
         _guard("C24.R2", "memory store eviction sequences", lambda: explore(cap, ops, d, h.store("memory", cap), {}, {}, [], 0))
-    chk.floor("C24.R2", "store states checked after an operation (max_completed in {0,1,2,None})", states, 900)
+    chk.floor("C24.R2", "store states checked after an operation (max_completed in {0,1,2,None})", states, 900 if "raises" not in fails else 0)
     evict = meths.get("_evict_oldest_completed", upd)
     shapes = {
         "plain": "histories in which no handler is upserted again after completing and no completed handler is deleted",
@@ -487,13 +502,18 @@ def rule_r4(chk: Any, h: Harness) -> None:
     _ref, m, fn = found
     UN = object()
     n = 0
+    anybad = False
     for kind in ("memory", "sqlite"):
         bad = ""
         empty = h.store(kind)
         for init_status, init_idle, init_err in (("running", T0, "old"), ("completed", None, None)):
             base = empty.fork()
-            base.call("update", h.handler(handler_id="A", workflow_name="w", status=init_status, run_id="rA", idle_since=init_idle, error=init_err, started_at=FakeDT("S")))
-            base.call("update", h.handler(handler_id="B", workflow_name="w", status="running", run_id="rB"))
+            try:
+                base.call("update", h.handler(handler_id="A", workflow_name="w", status=init_status, run_id="rA", idle_since=init_idle, error=init_err, started_at=FakeDT("S")))
+                base.call("update", h.handler(handler_id="B", workflow_name="w", status="running", run_id="rB"))
+            except Raised as r:
+                bad = bad or f"{kind}: update raised {r}"
+                continue
             for status in (None, "running", "completed", "failed", "cancelled"):
                 for error in (None, "boom"):
                     for idle in (UN, None, T0):
@@ -525,9 +545,10 @@ def rule_r4(chk: Any, h: Harness) -> None:
                             diff["updated_at"] = (None, "set")
                         if diff and not bad:
                             bad = f"{kind}: update_handler_status({_fmt(kw) or 'nothing'}) on status={init_status}, idle={init_idle}, error={init_err}: (got, expected) {diff}"
+        anybad = anybad or bool(bad)
         chk.ob("C24.R4", f"{kind} store: `update_handler_status` changes exactly the requested fields (status/error/idle_since in unset/None/value; 60 combinations)",
                not bad, m=m, node=fn, fn=fn, instance=f"{kind}:status-update-fields", reason=bad)
-    chk.floor("C24.R4", "status-update combinations evaluated", n, 120)
+    chk.floor("C24.R4", "status-update combinations evaluated", n, 120 if not anybad else 0)
 
 
 # ---------------------------------------------------------------------------- run
